@@ -72,6 +72,125 @@ fn main() {
             let r = engine::exec_on_thread(def, &case);
             std::fs::write(&args[4], serde_json::to_vec(&r).unwrap()).unwrap();
         }
+        "play" => {
+            // play <file.ink|file.json> [choice indices...]
+            let f = &args[2];
+            let txt = std::fs::read_to_string(f).unwrap();
+            let json = if f.ends_with(".json") { txt.clone() } else {
+                match corpus::compile_source(&txt, Path::new(f).parent()) { Ok(j) => j, Err(e) => { println!("compile error: {e}"); std::process::exit(1) } }
+            };
+            if args.iter().any(|a| a == "--json") { println!("{json}"); }
+            let prog = model::Program::from_json("file", f, Some(txt), json).unwrap();
+            let picks: Vec<u32> = args[3..].iter().filter_map(|a| a.parse().ok()).collect();
+            host::set_quiet(false);
+            let out = host::run_case_thread(1, 7, 1_000_000, move || {
+                let mut rng = rng::Rng::new(1);
+                let mut cfg = props::default_host(&prog, &mut rng);
+                cfg.handler = true; cfg.fallbacks = true;
+                let mut h = match host::Host::new(&prog, &cfg) { Ok(h) => h, Err(r) => return vec![format!("construct failed: {}", r.brief())] };
+                let mut k = 0;
+                for _ in 0..200 {
+                    let mut any = false;
+                    while h.can_continue() { any = true; let r = h.apply(&model::Op::Continue); if !matches!(r, host::Res::Ok(_)) { break; } }
+                    let ch = h.choices();
+                    if ch.is_empty() { if !any { break; } continue; }
+                    h.log.borrow_mut().push(host::Ev::Note(format!("choices {:?}", ch)));
+                    let pick = picks.get(k).copied().unwrap_or(0); k += 1;
+                    h.apply(&model::Op::Choose(pick));
+                }
+                let o = h.observe();
+                let mut l = h.log_render();
+                l.push(format!("vars {:?}", o.vars));
+                l.push(format!("visits {:?}", o.visits));
+                l.push(format!("errors {:?} warnings {:?}", o.errors, o.warnings));
+                l
+            }).unwrap();
+            for l in out { println!("{l}"); }
+        }
+        "gentest" => {
+            let n: u64 = args.get(2).and_then(|s| s.parse().ok()).unwrap_or(500);
+            let show = args.iter().any(|a| a == "--show");
+            let mut ok = 0;
+            let mut rejects: std::collections::BTreeMap<String, (u64, String)> = Default::default();
+            let mut bytes = 0usize;
+            let (mut tot_lines, mut tot_choices) = (0usize, 0usize);
+            let mut plays: std::collections::BTreeMap<String, u64> = Default::default();
+            for i in 0..n {
+                let mut rng = rng::Rng::new(rng::mix(env_seed, "gentest", i));
+                let mut cfg = inkgen::GenCfg::general();
+                cfg.shuffles = true;
+                cfg.externals = true;
+                cfg.random = true;
+                if args.iter().any(|a| a == "--fault") {
+                    cfg.fault_prone = true;
+                    cfg.message_sites = true;
+                }
+                if args.iter().any(|a| a == "--hostile") {
+                    cfg.hostile_text = true;
+                }
+                cfg.swarm(&mut rng);
+                let (src, r) = inkgen::generate_verbose(&mut rng, &cfg);
+                match r {
+                    Ok(p) => {
+                        ok += 1;
+                        bytes += p.json.len();
+                        let p2 = p.clone();
+                        let seed = rng.next_u64();
+                        let st = host::run_case_thread(seed, 7, 200_000, move || {
+                            let mut rng = rng::Rng::new(seed);
+                            let cfg = props::default_host(&p2, &mut rng);
+                            let mut out: Vec<String> = vec![];
+                            let mut h = match host::Host::new(&p2, &cfg) {
+                                Ok(h) => h,
+                                Err(r) => return (vec![format!("construct: {}", r.brief())], 0usize, 0usize),
+                            };
+                            let ops = script::gen_script(&mut rng, &p2, &script::ScriptCfg { beats: 8, ..Default::default() });
+                            let (mut lines, mut chosen) = (0, 0);
+                            for op in &ops {
+                                let r = h.apply(op);
+                                match (&r, op) {
+                                    (host::Res::Ok(_), model::Op::Continue) => lines += 1,
+                                    (host::Res::Ok(_), model::Op::Choose(_)) => chosen += 1,
+                                    (host::Res::Err(_, m), _) => out.push(format!("err: {}", m.rsplit("issue was: ").next().unwrap_or(m).chars().take(150).collect::<String>())),
+                                    (host::Res::Panic(s, m), _) => out.push(format!("PANIC {s}: {m}")),
+                                    (host::Res::Fuel, _) => out.push("FUEL".into()),
+                                    _ => {}
+                                }
+                            }
+                            if show { out.extend(h.log_render()); }
+                            (out, lines, chosen)
+                        }).unwrap();
+                        tot_lines += st.1; tot_choices += st.2;
+                        for o in &st.0 {
+                            let key: String = o.chars().filter(|c| !c.is_ascii_digit()).take(90).collect();
+                            *plays.entry(key).or_insert(0u64) += 1;
+                        }
+                        if show && i < 3 { for o in &st.0 { println!("   {o}"); } }
+                        if show && i < 3 {
+                            println!("----- program {i}\n{src}");
+                        }
+                    }
+                    Err(e) => {
+                        let key: String = e.chars().filter(|c| !c.is_ascii_digit()).take(70).collect();
+                        let ent = rejects.entry(key).or_insert((0, String::new()));
+                        ent.0 += 1;
+                        if ent.1.is_empty() {
+                            ent.1 = format!("{e}\n{src}");
+                        }
+                    }
+                }
+            }
+            println!("accepted {ok}/{n} avg json {} bytes; played: {} lines, {} choices", bytes / ok.max(1), tot_lines, tot_choices);
+            for (k, c) in &plays {
+                println!("   play {c} x {k}");
+            }
+            for (k, (c, ex)) in rejects {
+                println!("== {c} x {k}");
+                if args.iter().any(|a| a == "--rejects") {
+                    println!("{ex}");
+                }
+            }
+        }
         "replay" => {
             let id = args.get(2).unwrap_or_else(|| usage());
             let def = props::find(id).unwrap_or_else(|| usage());
